@@ -157,13 +157,15 @@ pub fn plan(prop: &str, tier: &str) -> (PropMeta, Vec<Job>) {
     };
     let cap = if quick { 240 } else { 1500 };
     let (ret, plain): (Vec<NodeCfg>, Vec<NodeCfg>) = cfgs.iter().cloned().partition(|c| c.expiry_us > 0);
-    let mut pj = if !quick && prop == "C03" {
-        // thorough C03: full depth on the corner set (threshold 2, small segments, no fsync, no dedup) and on the
-        // tiny-cache configurations, two steps less on the rest of the grid (192 configurations at depth 6 take hours)
+    let mut pj = if !quick && (prop == "C03" || prop == "C01") {
+        // thorough C03 / C01: full depth on the corner set (threshold 2, small segments, no fsync; C03 also: no dedup)
+        // and on the tiny-cache configurations, fewer steps (C03: two, C01: one) on the rest of the grid
+        // (192 configurations at full depth take hours)
+        let less = if prop == "C03" { 2 } else { 1 };
         let (corner, rest): (Vec<NodeCfg>, Vec<NodeCfg>) =
-            plain.iter().cloned().partition(|c| c.threshold == 2 && c.seg_size == SEG_SMALL && !c.fsync && !c.dedup);
+            plain.iter().cloned().partition(|c| c.threshold == 2 && c.seg_size == SEG_SMALL && !c.fsync && (prop == "C01" || !c.dedup));
         let mut v = make_jobs(prop, &corner, &|c| alpha(c), depth, split, cap);
-        v.extend(make_jobs(prop, &rest, &|c| alpha(c), depth - 2, split, cap));
+        v.extend(make_jobs(prop, &rest, &|c| alpha(c), depth - less, split, cap));
         v
     } else {
         make_jobs(prop, &plain, &|c| alpha(c), depth, split, cap)
@@ -184,7 +186,7 @@ pub fn plan(prop: &str, tier: &str) -> (PropMeta, Vec<Job>) {
         level: "model_checking",
         rule: format!(
             "every history of exactly {depth} operations{} over the alphabet (largest variant: {sample_alpha:?}) is executed against the real server from a fresh copy of a journalled template directory, for each of {} storage configurations; the oracle runs after every step; a state is distinct by (configuration, digest of the data directory, in-memory partition/segment facts)",
-            if !quick && prop == "C03" { " (on the corner set: threshold 2, small segments, no fsync, no dedup; two operations fewer on the other configurations; one more on the retention configurations)" } else { " (one more on the retention configurations)" },
+            if !quick && prop == "C03" { " (on the corner set: threshold 2, small segments, no fsync, no dedup; two operations fewer on the other configurations; one more on the retention configurations)" } else if !quick && prop == "C01" { " (on the corner set: threshold 2, small segments, no fsync; one operation fewer on the other configurations; one more on the retention configurations)" } else { " (one more on the retention configurations)" },
             cfgs.len()
         ),
         bounds: json!({
